@@ -281,3 +281,98 @@ def is_clock_call(n):
     last = name.split('.')[-1]
     from .pyir import CLOCK_ALIASES
     return 'onotonic' in last or name in ('time.time', 'time') or last in ('time',) or name in CLOCK_ALIASES
+
+
+# ----------------------------------------------------------------------------- hoisted locals
+_PURE_FUNCS = ('len', 'int', 'min', 'max', 'abs', 'float', 'bool')
+
+
+def _is_pure_partial(v):
+    return isinstance(v, ast.Call) and unparse(v.func) in ('functools.partial', 'partial') and v.args \
+        and unparse(v.args[0]) in ('struct.pack', 'struct.unpack', 'struct.calcsize')
+
+
+def single_defs(P, func):
+    """locals of `func` bound by exactly one statement `name = <expr>` whose right-hand side only reads
+    (attribute/subscript reads, arithmetic, len/min/max/int, pure getters of the class): name -> rhs node.
+    Rules use it to look through a value that a refactoring hoisted into a local; the hoisted expression is
+    evaluated where it is defined, so only read-only right-hand sides qualify."""
+    cache = P.__dict__.setdefault('_single_defs', {})
+    if func.qualname in cache:
+        return cache[func.qualname]
+    stores = {}
+    for n in walk_no_nested(func.node):
+        if isinstance(n, ast.Name) and isinstance(n.ctx, (ast.Store, ast.Del)):
+            stores[n.id] = stores.get(n.id, 0) + 1
+        elif isinstance(n, ast.ExceptHandler) and n.name:
+            stores[n.name] = stores.get(n.name, 0) + 2
+    for p in func.params:
+        stores[p] = stores.get(p, 0) + 1
+    out = {}
+    for n in walk_no_nested(func.node):
+        tgt = val = None
+        if isinstance(n, ast.Assign) and len(n.targets) == 1 and isinstance(n.targets[0], ast.Name):
+            tgt, val = n.targets[0].id, n.value
+        elif isinstance(n, ast.AnnAssign) and isinstance(n.target, ast.Name) and n.value is not None:
+            tgt, val = n.target.id, n.value
+        if tgt is None or stores.get(tgt) != 1:
+            continue
+        ok = True
+        for c in ast.walk(val):
+            if isinstance(c, ast.Call):
+                if is_clock_call(c):
+                    ok = False          # a clock read is not the same value at a later use
+                    break
+                if isinstance(c.func, ast.Name) and c.func.id in _PURE_FUNCS:
+                    continue
+                r = P.resolve_call(func, c)
+                if r.kind == 'method' and r.targets and all(P.is_pure_getter(t) for t in r.targets):
+                    continue
+                if r.kind == 'function' and r.targets and all(t.cls is None and not P.writes(t) for t in r.targets):
+                    continue        # module-level conversion helper (to_bytes): writes no object state
+                if isinstance(c.func, ast.Name) and _is_pure_partial(func.module.consts.get(c.func.id)):
+                    continue        # NAME = functools.partial(struct.pack, 'B')
+                ok = False
+                break
+            if isinstance(c, (ast.Lambda, ast.ListComp, ast.SetComp, ast.DictComp, ast.GeneratorExp, ast.IfExp, ast.Yield, ast.Await, ast.NamedExpr)):
+                ok = False
+                break
+        if ok:
+            out[tgt] = val
+    cache[func.qualname] = out
+    return out
+
+
+def deref(P, func, expr, depth=3):
+    """copy of `expr` with single-definition read-only locals replaced by their defining expressions"""
+    import copy
+    defs = single_defs(P, func)
+    if not defs or depth <= 0:
+        return expr
+
+    class T(ast.NodeTransformer):
+        def __init__(self):
+            self.changed = False
+
+        def visit_Name(self, n):
+            if isinstance(n.ctx, ast.Load) and n.id in defs:
+                self.changed = True
+                return ast.copy_location(copy.deepcopy(defs[n.id]), n)
+            return n
+    cur = expr
+    for _ in range(depth):
+        t = T()
+        new = t.visit(copy.deepcopy(cur))
+        if not t.changed:
+            break
+        cur = new
+    return cur
+
+
+def deref1(P, func, expr):
+    """the defining expression if `expr` is a single-definition read-only local, else `expr` itself (one level)"""
+    if isinstance(expr, ast.Name):
+        d = single_defs(P, func).get(expr.id)
+        if d is not None:
+            return d
+    return expr
